@@ -29,6 +29,18 @@ GROOVY_EXEMPT = ("groovyc prints only errors in the `file: line: message` block 
                  "in its output to anchor on")
 
 
+# Minimal well-formed error diagnostics of each compiler (the variable parts instantiated as short as the format
+# allows).  A pattern whose mandatory part cannot match one of these drops that kind of error.
+WITNESSES = {
+    "java": [("a/b/Main.java:3: error: m\n", "javac: <path>:<line>: error: <message>")],
+    "kotlin": [("a/b/p.kt:3:15: error: m\n", "kotlinc: <path>:<line>:<col>: error: <message>")],
+    "groovy": [("a/b/p.groovy: 3: m\n\n", "groovyc: <path>: <line>: <message> ... blank line"),
+               ("a/b/p.groovy: -1: m\n\n", "groovyc, error attached to a synthetic node: line number -1")],
+    "scala": [("-- [E007] Type Mismatch Error: a/b/p.scala:3:15 ---\nm\n", "dotty, coded: -- [Ennn] <Kind> Error: <path>:<l>:<c> ---"),
+              ("-- Error: a/b/p.scala:3:15 ---\nm\n", "dotty, uncoded (override / refchecks errors): -- Error: <path>:<l>:<c> ---")],
+}
+
+
 def _w(x, node=None):
     return "%s:%d" % (x.module.relpath, (node or x.node).lineno)
 
@@ -420,6 +432,19 @@ def r6_crash_pattern(repo):
     return obs
 
 
+def r7_minimal_diagnostics(repo):
+    obs = []
+    for lang, (comp, _t) in sorted(_lang_tables(repo).items()):
+        pat, flags, toks = _regex(comp, "ERROR_REGEX")
+        for i, (w, why) in enumerate(WITNESSES[lang]):
+            ok = R.may_match(toks, w)
+            obs.append(Ob("C14-R7", "%s:minimal-diagnostic#%d-not-excluded" % (lang, i), _w(comp), ok,
+                          "the mandatory part of ERROR_REGEX (literals and character classes; optional parts relaxed to "
+                          "anything) must be able to match the minimal diagnostic %r (%s); mandatory literal runs: %s"
+                          % (w, why, [t for _a, _b, t in R.literal_runs(toks)]), {"pattern": pat}))
+    return obs
+
+
 def rules():
     return [
         RuleSpec("C14-R1", "file group: returned by get_filename, extension, path alphabet", 8, r1_file_group),
@@ -428,6 +453,7 @@ def rules():
         RuleSpec("C14-R4", "order of operations in analyze_compiler_output / check_oracle", 9, r4_order),
         RuleSpec("C14-R5", "oracle key = path the compiler is given", 11, r5_lookup_key),
         RuleSpec("C14-R6", "crash pattern: unanchored search for the stack-trace marker", 5, r6_crash_pattern),
+        RuleSpec("C14-R7", "mandatory part of each pattern admits the compiler's minimal diagnostics", 5, r7_minimal_diagnostics),
     ]
 
 
